@@ -180,9 +180,20 @@ struct Recs
 
 // `<nrec> <L> (src dst w…)*`  (the weight-type token was consumed by the dispatcher)
 template <class V, class W>
-Recs<V, W> parse_recs(Cur &c)
+Recs<V, W> &parse_recs(Cur &c)
 {
-    Recs<V, W> r;
+    // the edge lists live in the SAME three vector objects for the whole process, like those of a long-lived caller
+    // that refills its buffers in place: storage address (and often the length) is the same from call to call
+    static Recs<V, W> r;
+    if (r.starts.capacity() == 0)
+    {
+        r.starts.reserve(1 << 12);
+        r.ends.reserve(1 << 12);
+        r.weights.reserve(1 << 14);
+    }
+    r.starts.clear();
+    r.ends.clear();
+    r.weights.clear();
     size_t n = c.nat();
     r.nL = c.nat();
     for (size_t i = 0; i < n; i++)
@@ -306,7 +317,7 @@ template <class V, class W, class D>
 void op_net_t(Cur &c, Out &o)
 {
     constexpr bool directed = std::is_same_v<D, boost::bidirectionalS>;
-    auto r = parse_recs<V, W>(c);
+    auto &r = parse_recs<V, W>(c);
     graph::Network<V, D> A(r.starts, r.ends, r.weights);
     auto ul = std::make_shared<std::vector<size_t>>();
     auto vl = std::make_shared<std::vector<size_t>>();
@@ -379,7 +390,7 @@ void op_sweep_t(size_t K, Cur &c, Out &o)
 {
     constexpr bool directed = std::is_same_v<D, boost::bidirectionalS>;
     constexpr bool assort = std::is_same_v<Aff, DiagonalTensor<double>>;
-    auto r = parse_recs<size_t, W>(c);
+    auto &r = parse_recs<size_t, W>(c);
     size_t N = c.nat();
     auto ud = c.flts(), vd = c.flts(), wd = c.flts();
     size_t it0 = c.nat(), co0 = c.nat();
@@ -557,7 +568,7 @@ static int err_code(const std::string &m)
 template <class V, class W, class D, class Aff, class Init>
 void op_run_t(size_t K, Cur &c, Out &o)
 {
-    auto r = parse_recs<V, W>(c);
+    auto &r = parse_recs<V, W>(c);
     size_t nr = c.nat(), maxit = c.nat(), nconv = c.nat();
     long long seed = c.integer();
     double prior = c.flt();
@@ -581,7 +592,26 @@ void op_run_t(size_t K, Cur &c, Out &o)
         std::vector<double> vfill(vr * vc, prior);
         v = Matrix<double>(vr, vc, vfill);
     }
+    // optional: what the caller's label container holds before the call (0: empty; 1: as many entries as there are
+    // vertices, the first and the last already right, the others stale; 2: too many stale entries; 3: N stale entries)
+    size_t lprior = c.p < c.t.size() ? c.nat() : 0;
     std::vector<V> labels;
+    if (lprior && !r.starts.empty())
+    {
+        std::vector<V> order;
+        for (size_t e = 0; e < r.starts.size(); e++)
+            for (const V &x : {r.starts[e], r.ends[e]})
+                if (std::find(order.begin(), order.end(), x) == order.end())
+                    order.push_back(x);
+        if (lprior == 1)
+        {
+            labels = order;
+            for (size_t p = 1; p + 1 < labels.size(); p++)
+                labels[p] = order[0];
+        }
+        else
+            labels.assign(order.size() + (lprior == 2 ? 2 : 0), order[0]);
+    }
     utils::RandomGenerator<> rng{(std::time_t)seed};
     Recorder rec(o, tr, script, (maxit + 9) / 10);
     verif::set_observer(&rec);
@@ -701,7 +731,7 @@ void op_run2_t(Cur &c, Out &o)
         std::string lt = c.tok(), wt = c.tok();
         if (lt != "u" || wt != "u")
             throw std::logic_error("run2 needs size_t labels and weights");
-        auto r = parse_recs<size_t, size_t>(c);
+        auto &r = parse_recs<size_t, size_t>(c);
         long long seed = c.integer();
         auto aff = c.flts();
         size_t N = utils::get_num_vertices(r.starts, r.ends);
@@ -768,7 +798,7 @@ void op_runshared_t(Cur &c, Out &o)
     std::string lt = c.tok(), wt = c.tok();
     if (lt != "u" || wt != "u")
         throw std::logic_error("runshared needs size_t labels and weights");
-    auto r = parse_recs<size_t, size_t>(c);
+    auto &r = parse_recs<size_t, size_t>(c);
     size_t r1 = c.nat(), r2 = c.nat(), maxit = c.nat(), nconv = c.nat();
     long long seed = c.integer();
     auto aff0 = c.flts();
@@ -831,7 +861,17 @@ void op_validate_t(Cur &c, Out &o)
 {
     size_t nstart = c.nat(), nend = c.nat(), nweights = c.nat(), naff = c.nat();
     size_t ndistinct = c.nat(), usize = c.nat(), nr = c.nat(), maxit = c.nat(), nconv = c.nat();
-    std::vector<size_t> starts(nstart), ends(nend), weights(nweights, 1);
+    // one set of edge-list buffers for the whole process, refilled in place (see parse_recs)
+    static std::vector<size_t> starts, ends, weights;
+    if (starts.capacity() == 0)
+    {
+        starts.reserve(1 << 12);
+        ends.reserve(1 << 12);
+        weights.reserve(1 << 14);
+    }
+    starts.assign(nstart, 0);
+    ends.assign(nend, 0);
+    weights.assign(nweights, 1);
     for (size_t p = 0; p < nstart; p++)
         starts[p] = 100 + (ndistinct ? p % ndistinct : 0);
     for (size_t p = 0; p < nend; p++)
